@@ -5,7 +5,7 @@
    generated case (paired run with a re-cased query, bit-identical answers). The CLI's whitespace
    normal form is C14's validate_idempotent / validate_clean. *)
 From Coq Require Import List ZArith NArith Bool Floats.
-From WTF Require Import Model.Validate Model.Text Model.Platform Model.Engine Proofs.EngineProofs Proofs.WhitespaceProofs.
+From WTF Require Import Model.Validate Model.Text Model.Platform Model.Engine Model.Legacy Proofs.EngineProofs Proofs.WhitespaceProofs Proofs.LegacyProofs.
 From WTF Require Proofs.Corollaries.
 Import ListNotations.
 
@@ -31,7 +31,31 @@ Theorem normal_form_ignores_repeated_space : forall a s1 s2 b,
   norm false false (a ++ s1 ++ b) = norm false false (a ++ s2 ++ b).
 Proof. exact norm_repeated. Qed.
 
+(* the `wtf pipeline` command line does not go through the validator: its search sees the query only as the word list
+   strings.Fields(strings.ToLower(query)) (Model/Legacy.v, ASCII), and that list ignores letter case, padding, and the
+   length and kind of every run of blanks; so do the answers, whatever the scorer does with the words *)
+Theorem pipeline_words_ignore_case : forall q q', lower_ascii q = lower_ascii q' -> legacy_words q = legacy_words q'.
+Proof. exact legacy_words_ignore_case. Qed.
+
+Theorem pipeline_words_ignore_padding : forall l q t,
+  forallb is_sp l = true -> forallb is_sp t = true -> legacy_words (l ++ q ++ t) = legacy_words q.
+Proof. exact legacy_words_ignore_padding. Qed.
+
+Theorem pipeline_words_ignore_repeated_blanks : forall a s1 s2 b,
+  forallb is_sp s1 = true -> forallb is_sp s2 = true -> s1 <> [] -> s2 <> [] ->
+  legacy_words (a ++ s1 ++ b) = legacy_words (a ++ s2 ++ b).
+Proof. exact legacy_words_ignore_spacing. Qed.
+
+Theorem pipeline_search_sees_words_only : forall wscore words words' cmds po boost limit,
+  words = words' ->
+  pipeline_search_words wscore words cmds po boost limit = pipeline_search_words wscore words' cmds po boost limit.
+Proof. exact pipeline_search_word_list_only. Qed.
+
 Print Assumptions tokenize_case_invariant.
+Print Assumptions pipeline_words_ignore_case.
+Print Assumptions pipeline_words_ignore_padding.
+Print Assumptions pipeline_words_ignore_repeated_blanks.
+Print Assumptions pipeline_search_sees_words_only.
 Print Assumptions search_case_invariant_partial.
 Print Assumptions normal_form_ignores_leading_space.
 Print Assumptions normal_form_ignores_trailing_space.
